@@ -59,6 +59,17 @@ CLAIMED = {
     "C20": ("Coq proof: client option record -> API call mapping is well typed and value preserving, create/open agreement via the C14 decision function (Client.v); P-client correspondence",
             "client_types, client_values_* per verb, client_format_default, create-then-open both ways; calls as they reach the API (recorded by wrapping the public methods) compared with the model's mapping; effect and report compared with the API on a copy of the store.",
             "DESIGN.md section 6 C20", None),
+    "C09": ("Coq proof: integrity invariant for any pool of API calls at every prefix of every schedule (Hoare-style Safe predicate over programs with thread-private temp files, Integrity.v); P-trace + directory observer",
+            "integrity_invariant / integrity_every_prefix / single_step_publication / api_never_writes_permanent_in_place for any number of threads, any calls, every instant (a crash is a prefix); "
+            "per-call operation sequences of the implementation compared op-for-op with the model; the store directory snapshotted before every operation of 19 calls (sizes 0..multi-buffer) and checked with name=digest / complete-version / whole-cid oracles.",
+            "DESIGN.md section 6 C09", "a reader racing with the bytes of a single write(2); fault executions, where shutil.move may fall back to an in-place copy"),
+    "C10": ("Coq proof: reflective enumeration of ALL crash points of each menu scenario by the kernel (vm_compute), lifted to every n by run_crash_stable (CrashFault.v, Crash10_*.v); P-trace/P-crash correspondence",
+            "crash_recovery: for 84 scenarios (7 start states x 12 interrupted calls) and every crash point: others untouched, interrupted pid served right bytes or not-found, delete+store always recovers; "
+            "implementation: directory state before every operation (validated against real fork+os._exit for a sample), reopened by a fresh instance, compared with run_crash and checked by the property's own oracle.",
+            "DESIGN.md section 6 C10", "crash = process death with completed file-system operations persisting in order: no power-loss / write-back reordering model"),
+    "C13": ("Coq proof: reflective enumeration of ALL fault sites x {one-off, persistent} of each menu scenario by the kernel, lifted to every k by run_fault_beyond (CrashFault.v, Fault13_*.v); P-trace/P-fault correspondence",
+            "fault_safe for 77 scenarios x all sites x 2 modes except the 80 points of known13 (proved to fail: D10), one_off_all_pass, no_lock_left; implementation: OSError(EIO/ENOSPC/EACCES) injected at the same site, outcome/state/locks compared with run_fault, property oracle on the implementation.",
+            "DESIGN.md section 6 C13", "faults are OSError raised at call entry of the failing operation; short writes / EINTR are not modelled"),
 }
 
 REASON_PENDING = "check not yet registered in this snapshot: machinery under construction (see DESIGN.md section 11); not claimed until its check runs green on the unchanged tree"
